@@ -1113,3 +1113,53 @@ package core
 //@   ensures sigelems: forall j :: 0 <= j && j < len(in) && tSignal(in[j]) ==> out[j - nonsig(in, j)] == in[j]
 //@   ensures fedelems: forall k, j :: 0 <= k && k < len(procs) && 0 <= j && j < len(in) && !tSignal(in[j]) ==> chanIn[k][nonsig(in, j)] == in[j]
 //@   ensures results: forall k, m :: 0 <= k && k < len(procs) && 0 <= m && m < len(chanOut[k]) ==> out[(len(in) - nonsig(in, len(in))) + csum(k) + m] == chanOut[k][m]
+
+// ---- C19: the dispatcher that feeds the aggregations ------------------------------------
+// Signals are forwarded to the output in place; every other input row - whatever it carries,
+// also a row without a current element - is handed, in input order, to every aggregation of
+// the step; when the input ends every aggregation's channel is closed. (The names are
+// distinct: the compiler rejects an aggregate step with two equal names.)
+//@ func (*aggregate).Process$1
+//@   vars in out agg aChans t a a
+//@   property C19 C06
+//@   option prelude=trav
+//@   option load=gdbi,gripql
+//@   nopanic
+//@   requires fresh: agg != nil && aChans != nil && rd(in) == 0 && wr(out) == 0 && !closed(out) && in != out && out != nil && in != nil && in < alloc && out < alloc
+//@   requires items: forall j :: 0 <= j && j < len(in) ==> in[j] != nil
+//@   requires chans: soff(agg.aggregations) >= 0 && (forall i :: 0 <= i && i < len(agg.aggregations) ==> agg.aggregations[i] != nil && has(aChans, agg.aggregations[i].Name) && aChans[agg.aggregations[i].Name] > 0 && aChans[agg.aggregations[i].Name] < alloc && aChans[agg.aggregations[i].Name] != in && aChans[agg.aggregations[i].Name] != out)
+//@   requires idle: forall i :: 0 <= i && i < len(agg.aggregations) ==> wr(aChans[agg.aggregations[i].Name]) == 0 && !closed(aChans[agg.aggregations[i].Name])
+//@   requires distinct: forall i, k :: 0 <= i && i < k && k < len(agg.aggregations) ==> agg.aggregations[i].Name != agg.aggregations[k].Name && aChans[agg.aggregations[i].Name] != aChans[agg.aggregations[k].Name]
+//@   axiom n0: nonsig(in, 0) == 0
+//@   axiom nS: forall k :: 0 <= k ==> nonsig(in, k + 1) == nonsig(in, k) + ite(tSignal(in[k]), 0, 1)
+//@   loop 1 invariant items: forall j :: 0 <= j && j < len(in) ==> in[j] != nil && in[j] == old(in[j])
+//@   loop 1 invariant chans: !closed(out) && soff(agg.aggregations) >= 0 && (forall i :: 0 <= i && i < len(agg.aggregations) ==> agg.aggregations[i] != nil && has(aChans, agg.aggregations[i].Name) && aChans[agg.aggregations[i].Name] > 0 && aChans[agg.aggregations[i].Name] < alloc && aChans[agg.aggregations[i].Name] != in && aChans[agg.aggregations[i].Name] != out)
+//@   loop 1 invariant distinct: forall i, k :: 0 <= i && i < k && k < len(agg.aggregations) ==> agg.aggregations[i].Name != agg.aggregations[k].Name && aChans[agg.aggregations[i].Name] != aChans[agg.aggregations[k].Name]
+//@   loop 1 invariant pos: 0 <= rd(in) && rd(in) <= len(in)
+//@   loop 1 invariant mono: forall j :: 0 <= j && j <= rd(in) ==> nonsig(in, j) >= 0 && nonsig(in, j) <= j && nonsig(in, j) <= nonsig(in, rd(in)) && j - nonsig(in, j) <= rd(in) - nonsig(in, rd(in))
+//@   loop 1 invariant fed: forall i :: 0 <= i && i < len(agg.aggregations) ==> wr(aChans[agg.aggregations[i].Name]) == nonsig(in, rd(in)) && !closed(aChans[agg.aggregations[i].Name])
+//@   loop 1 invariant sigs: wr(out) == rd(in) - nonsig(in, rd(in))
+//@   loop 1 invariant sigelems: forall j :: 0 <= j && j < rd(in) && tSignal(in[j]) ==> out[j - nonsig(in, j)] == in[j]
+//@   loop 1 invariant fedelems: forall i, j :: 0 <= i && i < len(agg.aggregations) && 0 <= j && j < rd(in) && !tSignal(in[j]) ==> aChans[agg.aggregations[i].Name][nonsig(in, j)] == in[j]
+//@   loop 2 invariant items: forall j :: 0 <= j && j < len(in) ==> in[j] != nil && in[j] == old(in[j])
+//@   loop 2 invariant chans: !closed(out) && soff(agg.aggregations) >= 0 && (forall i :: 0 <= i && i < len(agg.aggregations) ==> agg.aggregations[i] != nil && has(aChans, agg.aggregations[i].Name) && aChans[agg.aggregations[i].Name] > 0 && aChans[agg.aggregations[i].Name] < alloc && aChans[agg.aggregations[i].Name] != in && aChans[agg.aggregations[i].Name] != out)
+//@   loop 2 invariant distinct: forall i, k :: 0 <= i && i < k && k < len(agg.aggregations) ==> agg.aggregations[i].Name != agg.aggregations[k].Name && aChans[agg.aggregations[i].Name] != aChans[agg.aggregations[k].Name]
+//@   loop 2 invariant pos: 0 < rd(in) && rd(in) <= len(in) && !tSignal(in[rd(in) - 1]) && t == in[rd(in) - 1] && rangeindex < len(agg.aggregations)
+//@   loop 2 invariant mono: forall j :: 0 <= j && j <= rd(in) - 1 ==> nonsig(in, j) >= 0 && nonsig(in, j) <= j && nonsig(in, j) <= nonsig(in, rd(in) - 1) && j - nonsig(in, j) <= rd(in) - 1 - nonsig(in, rd(in) - 1)
+//@   loop 2 invariant fed: forall i :: 0 <= i && i < len(agg.aggregations) ==> wr(aChans[agg.aggregations[i].Name]) == nonsig(in, rd(in) - 1) + ite(i <= rangeindex, 1, 0) && !closed(aChans[agg.aggregations[i].Name])
+//@   loop 2 invariant sigs: wr(out) == rd(in) - 1 - nonsig(in, rd(in) - 1)
+//@   loop 2 invariant sigelems: forall j :: 0 <= j && j < rd(in) - 1 && tSignal(in[j]) ==> out[j - nonsig(in, j)] == in[j]
+//@   loop 2 invariant fedelems: forall i, j :: 0 <= i && i < len(agg.aggregations) && 0 <= j && j < rd(in) - 1 && !tSignal(in[j]) ==> aChans[agg.aggregations[i].Name][nonsig(in, j)] == in[j]
+//@   loop 2 invariant fedcur: forall i :: 0 <= i && i <= rangeindex ==> aChans[agg.aggregations[i].Name][nonsig(in, rd(in) - 1)] == in[rd(in) - 1]
+//@   loop 3 invariant items: forall j :: 0 <= j && j < len(in) ==> in[j] != nil && in[j] == old(in[j])
+//@   loop 3 invariant chans: !closed(out) && soff(agg.aggregations) >= 0 && (forall i :: 0 <= i && i < len(agg.aggregations) ==> agg.aggregations[i] != nil && has(aChans, agg.aggregations[i].Name) && aChans[agg.aggregations[i].Name] > 0 && aChans[agg.aggregations[i].Name] < alloc && aChans[agg.aggregations[i].Name] != in && aChans[agg.aggregations[i].Name] != out)
+//@   loop 3 invariant distinct: forall i, k :: 0 <= i && i < k && k < len(agg.aggregations) ==> agg.aggregations[i].Name != agg.aggregations[k].Name && aChans[agg.aggregations[i].Name] != aChans[agg.aggregations[k].Name]
+//@   loop 3 invariant closing: rangeindex < len(agg.aggregations) && rd(in) == len(in) && wr(out) == len(in) - nonsig(in, len(in)) &&
+//@       (forall i :: 0 <= i && i < len(agg.aggregations) ==> wr(aChans[agg.aggregations[i].Name]) == nonsig(in, len(in)) && (closed(aChans[agg.aggregations[i].Name]) <==> i <= rangeindex))
+//@   loop 3 invariant mono: forall j :: 0 <= j && j <= len(in) ==> nonsig(in, j) >= 0 && nonsig(in, j) <= j && nonsig(in, j) <= nonsig(in, len(in)) && j - nonsig(in, j) <= len(in) - nonsig(in, len(in))
+//@   loop 3 invariant sigelems: forall j :: 0 <= j && j < len(in) && tSignal(in[j]) ==> out[j - nonsig(in, j)] == in[j]
+//@   loop 3 invariant fedelems: forall i, j :: 0 <= i && i < len(agg.aggregations) && 0 <= j && j < len(in) && !tSignal(in[j]) ==> aChans[agg.aggregations[i].Name][nonsig(in, j)] == in[j]
+//@   ensures drained: rd(in) == len(in) && wr(out) == len(in) - nonsig(in, len(in)) && !closed(out)
+//@   ensures fed: forall i :: 0 <= i && i < len(agg.aggregations) ==> closed(aChans[agg.aggregations[i].Name]) && wr(aChans[agg.aggregations[i].Name]) == nonsig(in, len(in))
+//@   ensures sigelems: forall j :: 0 <= j && j < len(in) && tSignal(in[j]) ==> out[j - nonsig(in, j)] == in[j]
+//@   ensures fedelems: forall i, j :: 0 <= i && i < len(agg.aggregations) && 0 <= j && j < len(in) && !tSignal(in[j]) ==> aChans[agg.aggregations[i].Name][nonsig(in, j)] == in[j]
